@@ -514,12 +514,24 @@ def r20j(R):
     for mname in ('get_script_control', 'get_script_list'):
         m = wa.methods[mname]
         mcfg = A.cfg(m)
-        sets = [n for n in mcfg.nodes if n.kind == 'stmt'
-                and isinstance(n.ast, ast.Assign)
-                and any(isinstance(t, ast.Attribute) and t.attr == 'running'
-                        for t in n.ast.targets)
-                and isinstance(n.ast.value, ast.Call)
-                and 'JobControl.is_running' in A.callee_names(m, n.ast.value)]
+        def sets_running(g, gcfg):
+            return [n for n in gcfg.nodes if n.kind == 'stmt'
+                    and isinstance(n.ast, ast.Assign)
+                    and any(isinstance(t, ast.Attribute) and t.attr == 'running'
+                            for t in n.ast.targets)
+                    and isinstance(n.ast.value, ast.Call)
+                    and 'JobControl.is_running' in A.callee_names(g, n.ast.value)]
+        sets = sets_running(m, mcfg)
+        # ... or through a helper of the class that does so on every path
+        for n in mcfg.nodes:
+            for c in n.calls():
+                for g in A.callees(m, c):
+                    if g.cls is wa and g is not m:
+                        gcfg = A.cfg(g)
+                        gs = sets_running(g, gcfg)
+                        if gs and gcfg.find_path([gcfg.entry], lambda x: x is gcfg.exit,
+                                                 avoid=gs) is None:
+                            sets.append(n)
         ok = bool(sets)
         p = None
         if ok and mname == 'get_script_control':
@@ -558,18 +570,29 @@ def r19g(R):
     A = R.A
     fl = A.func(VMIO, 'VmIo.flush')
     cfg = A.cfg(fl)
-    loops = [n for n in cfg.nodes if n.kind == 'for'
-             and '_unnamed' in norm(n.ast.iter)]
+    from ..cfg import in_cycle
+    aliases = set(['self._unnamed'])
+    for s in walk_own(fl.node):
+        if isinstance(s, ast.Assign) and norm(s.value) == 'self._unnamed':
+            aliases |= set(norm(t) for t in s.targets)
     outs = [n for n in cfg.nodes for c in n.calls()
             if isinstance(c.func, ast.Attribute) and c.func.attr == 'out']
-    ok = bool(loops and outs)
+    heads = [n for n in cfg.nodes if (n.kind == 'for' and norm(n.ast.iter) in aliases)
+             or (n.kind == 'loop-head' and any(a in norm(n.ast.test) for a in aliases))]
+    ok = bool(heads and outs) and all(in_cycle(cfg, n) for n in outs)
     if ok:
-        lp = loops[0]
-        body = [x for x, lab in lp.succs if lab is True]
+        lp = heads[0]
+        if lp.kind == 'for':
+            body = [x for x, lab in lp.succs if lab is True]
+            elem = [norm(lp.ast.target)]
+        else:
+            test = [x for x, _l in lp.succs]
+            body = [y for t in test for y, lab in t.succs if lab is True] or test
+            elem = ['%s[' % a for a in aliases]
         ok = cfg.find_path(body, lambda n: n is lp, avoid=outs) is None and \
-            all(norm(c.args[0]) == norm(lp.ast.target) for n in outs
-                for c in n.calls() if isinstance(c.func, ast.Attribute)
-                and c.func.attr == 'out' and c.args)
+            all(any(norm(c.args[0]) == e or norm(c.args[0]).startswith(e) for e in elem)
+                for n in outs for c in n.calls()
+                if isinstance(c.func, ast.Attribute) and c.func.attr == 'out' and c.args)
     R.check(fl, 'every pending value is written', ok,
             'values still pending when the run ends are dropped')
     sink_flush = [n for n in cfg.nodes for c in n.calls()
@@ -1057,8 +1080,10 @@ def r06m(R):
         n_ret += 1
         has = [t for t in facts if 'has_string()' in t[0]]
         if has and has[0][1] is False:
-            # no text: must answer False
-            if not (isinstance(r.ret_expr, ast.Constant) and r.ret_expr.value is False):
+            # no text: must answer False (a constant, or the falsy result of
+            # `has_string() and ...` itself)
+            if not ((isinstance(r.ret_expr, ast.Constant) and r.ret_expr.value is False)
+                    or getattr(r, 'ret_truth', None) is False):
                 ok = False
         elif has and has[0][1] is True:
             if 'content' not in norm(r.ret_expr):
